@@ -5,7 +5,7 @@
 # Everything happens in the scratch worktree /tmp/mw (never in /repo).
 prop="$1"; dir="$2"; sfx="$3"; shift 3
 export GOFLAGS=-mod=mod GOPROXY=off GOSUMDB=off GOTOOLCHAIN=local
-wt=/tmp/mw
+wt=${MW:-/tmp/mw}
 patch="$dir/patch$sfx.diff"; demo="$dir/demo$sfx"
 [ -f "$patch" ] || { echo "NO PATCH $patch"; exit 2; }
 cd $wt || exit 2
@@ -31,7 +31,7 @@ suite=$(go test -vet=off -count=1 -timeout 120s ./... 2>&1 | grep -v "^ok\|no te
 echo "== existing suite with patch: ${suite:-GREEN}"
 echo "== demo with patch: $(run_demo)"
 git clean -fdq
-export VERIF_REPO="$wt" VERIF_WORK="/tmp/mwork"
+export VERIF_REPO="$wt" VERIF_WORK="${MWORK:-/tmp/mwork}"
 mkdir -p "$VERIF_WORK"
 for p in "$prop" "$@"; do
   (cd /tmp/vsnap && timeout 2400 ./check "$p" quick 2>&1 | grep -E "VIOLATION|KNOWN|seed=" | cut -c1-220)
